@@ -41,7 +41,10 @@ type Case struct {
 	Chunks []int   `json:"chunks,omitempty"`
 	Concat int     `json:"concat"`
 	FailAt int     `json:"failAt"` // write call at which the writer starts failing
-	Upper  bool    `json:"upper"`
+	// FailHow: what the writer returns at that call (io.Writer allows all three):
+	// 0 = (0, err), 1 = (len/2, err), 2 = (len, err).
+	FailHow int  `json:"failHow,omitempty"`
+	Upper   bool `json:"upper"`
 	// Poison: an encoding that fails half-way (a collection whose last member is a
 	// LinearRing) precedes everything else; it must leave nothing behind.
 	Poison bool `json:"poison,omitempty"`
@@ -79,12 +82,13 @@ func genCase(t *rapid.T) Case {
 	}
 	c := Case{
 		G: *g, Mode: mode, XDR: rapid.Bool().Draw(t, "xdr"),
-		Route:  rapid.IntRange(0, int(model.NumRoutes)-1).Draw(t, "route"),
-		Reader: rapid.SampledFrom([]string{"chunks", "onebyte", "half", "dataerr", "whole"}).Draw(t, "reader"),
-		Concat: rapid.IntRange(1, 3).Draw(t, "concat"),
-		FailAt: rapid.IntRange(0, 40).Draw(t, "failAt"),
-		Upper:  rapid.Bool().Draw(t, "upper"),
-		Poison: rapid.IntRange(0, 3).Draw(t, "poison") == 0,
+		Route:   rapid.IntRange(0, int(model.NumRoutes)-1).Draw(t, "route"),
+		Reader:  rapid.SampledFrom([]string{"chunks", "onebyte", "half", "dataerr", "whole"}).Draw(t, "reader"),
+		Concat:  rapid.IntRange(1, 3).Draw(t, "concat"),
+		FailAt:  rapid.IntRange(0, 40).Draw(t, "failAt"),
+		FailHow: rapid.IntRange(0, 2).Draw(t, "failHow"),
+		Upper:   rapid.Bool().Draw(t, "upper"),
+		Poison:  rapid.IntRange(0, 3).Draw(t, "poison") == 0,
 	}
 	if c.Reader == "chunks" {
 		n := rapid.IntRange(1, 12).Draw(t, "nchunks")
@@ -132,6 +136,7 @@ var errInjected = errors.New("injected writer failure")
 // failWriter accepts the first n Write calls and fails afterwards.
 type failWriter struct {
 	n        int
+	how      int // at the failing call: 0 = (0, err); 1 = half of the bytes and err; 2 = all of the bytes and err
 	accepted bytes.Buffer
 	calls    int
 	failed   bool
@@ -139,8 +144,19 @@ type failWriter struct {
 
 func (w *failWriter) Write(p []byte) (int, error) {
 	if w.calls >= w.n {
+		first := !w.failed
 		w.failed = true
-		return 0, errInjected
+		k := 0
+		if first {
+			switch w.how {
+			case 1:
+				k = len(p) / 2
+			case 2:
+				k = len(p)
+			}
+		}
+		w.accepted.Write(p[:k])
+		return k, errInjected
 	}
 	w.calls++
 	w.accepted.Write(p)
@@ -335,7 +351,7 @@ func prop(c Case) error {
 	if !bytes.Equal(buf.Bytes(), want) {
 		return fmt.Errorf("Write emitted % x, Marshal % x", buf.Bytes(), want)
 	}
-	fw := &failWriter{n: c.FailAt}
+	fw := &failWriter{n: c.FailAt, how: c.FailHow}
 	werr := cd.write(fw, bo, t)
 	if fw.failed {
 		if werr == nil {
